@@ -378,6 +378,14 @@ class Extractor:
             body = body2
         sig = r10_const_generic(sig, hdr, rules)
         body = r10_const_generic(body, hdr, rules)
+        if kv.get('desugar_bitand') == 'yes':
+            # R13: operator desugaring `a & b` -> `a.bitand(b)` (the language definition of `&`); this Verus
+            # build hits an internal error (codegen_select_candidate) on operator syntax over `&T: BitAnd`
+            body2 = re.sub(r'(?P<lhs>[\w\.]+(?:\(\))?)\s*&\s*(?P<rhs>\w+)\s*==', r'\g<lhs>.bitand(\g<rhs>) ==', body)
+            if body2 == body:
+                raise LostAnchor('%s: fn %s: no `a & b ==` expression to desugar' % (rel, kv['fn']))
+            body = body2
+            rules.append('R13')
         # calls to a generic helper that was instantiated per type: follow the instantiation
         for a, b in kv.get('callrename', []):
             body2 = re.sub(r'\b' + re.escape(a) + r'\b', b, body)
